@@ -195,6 +195,29 @@ void gen_fill(mzd_t *M, const char *gen, long p, uint64_t seed) {
     /* restore mask (rows were xored with masked data only, but be explicit) */
     return;
   }
+  if (!strcmp(gen, "widegap")) { /* p = lead*1000 + rank: `lead` zero columns first, then a rank-limited block whose early stripes lack pivots */
+    int lead = (int)(p / 1000), rk = (int)(p % 1000);
+    if (rk < 1) rk = 1;
+    if (lead >= n) lead = n - 1;
+    bm_t Y = bm_new(rk, n);
+    for (int i = 0; i < rk; i++)
+      for (int j = 0; j < Y.w; j++) Y.d[i * Y.w + j] = rng_u64(&r);
+    /* zero the leading columns and, stripe by stripe of 8 columns, every second stripe up to column 128 */
+    for (int j = 0; j < n; j++) {
+      int kill = j < lead || (j < 128 && ((j / 8) & 1) && (seed & 1));
+      if (kill) for (int i = 0; i < rk; i++) Y.d[i * Y.w + j / 64] &= ~((word)1 << (j % 64));
+    }
+    for (rci_t i = 0; i < m; i++) {
+      word *row = mzd_row(M, i);
+      word sel[4];
+      for (int k = 0; k < 4; k++) sel[k] = rng_u64(&r);
+      for (int k = 0; k < rk && k < 256; k++)
+        if ((sel[k / 64] >> (k % 64)) & 1)
+          for (int j = 0; j < M->width; j++) { word v = Y.d[k * Y.w + j]; if (j == M->width - 1) v &= M->high_bitmask; row[j] ^= v; }
+    }
+    bm_free(&Y);
+    return;
+  }
   if (!strcmp(gen, "rank")) { /* rank <= p, with zero column blocks crossing word boundaries */
     int rk = (int)p;
     if (rk > m) rk = m;
